@@ -752,9 +752,12 @@ struct Ad
                 }
                 s << ")";
             }
-            // free slots: the order-list iterator they still hold (-1 = never set).  The pinned code never
-            // reads it (it is re-assigned on insert), but a changed implementation that relies on a stale one must
-            // not have such states merged with sound ones (costs ~17% more states on utlru).
+            // free slots: the order-list iterator they still hold.  The pinned code never reads it (it is
+            // re-assigned on insert) and leaves it either never set or pointing at the slot's own node: those two
+            // are printed alike (nothing).  Any other target is printed, so a changed implementation that relies on
+            // stored iterators of free slots does not have its odd states merged with sound ones.  On the pinned
+            // code only utlru's clear() produces such targets (it re-values the list nodes): +56% states on utlru.
+            // Off (g_dump_free_iters) in the C18/C19 product searches, whose pair count it multiplies, and in E2.
             {
                 bool infree = false;
                 int  pos    = 0;
@@ -779,7 +782,8 @@ struct Ad
                     else
 #endif
                         p = pos_in(lst, fit);
-                    s << " F" << rn(*it) << "(l" << p << ")";
+                    if (g_dump_free_iters && p != -1 && p != pos)
+                        s << " F" << rn(*it) << "(l" << p << ")";
                 }
             }
         }
